@@ -24,3 +24,241 @@ def rule_instance_state(ctx, prefixes, R="instance-state"):
                    (f"class attribute `{b[1]}` is one mutable object shared by all instances, and {b[3][0]}() (line {b[3][1]}) mutates it in place; __init__ does not "
                     f"create a per-instance one") if b else "")
     ctx.anchor(n >= 1, "classes with methods examined for shared state")
+
+
+# ---- the layers around the mechanisms (client, public API, helpers): rules added after seed round K --------------------------------
+import ast  # noqa: E402
+
+from ..loader import call_attr, unparse  # noqa: E402
+from ..rulekit import arg_of, def_value, local_defs, must_facts  # noqa: E402
+
+
+def rule_shared_metadata_future(ctx, R):
+    """force_metadata_update() hands every caller the ONE future the metadata synchronizer resolves (the sender, _maybe_wait_metadata and
+    _wait_on_metadata of every send() await it): it leaves the client only inside asyncio.shield(), or a cancelled / timed-out caller
+    cancels it for everybody -- the sender then ends as if it had been stopped and accepted records never resolve."""
+    fi = ctx.fn("aiokafka.client.AIOKafkaClient.force_metadata_update")
+    c = ctx.cfg(fi)
+    rets = [r for r in c.nodes if r.kind == "return"]
+    ok = bool(rets) and all(isinstance(r.ast.value, ast.Call) and unparse(r.ast.value.func) in ("asyncio.shield", "shield") and unparse(arg_of(r.ast.value, 0)) == "self._md_update_fut" for r in rets)
+    ctx.ob(R, fi, fi.node, ok, "force_metadata_update() returns the shared metadata future without asyncio.shield(): a caller's cancellation cancels it for the sender and every other waiter",
+           text="metadata-future-shielded")
+
+
+def rule_client_send_errors_retriable(ctx, R):
+    """What AIOKafkaClient.send() itself raises when a node cannot be used is a RETRIABLE error: the produce handler classifies whatever it
+    gets by `error.retriable`, and a batch failed on a routing hiccup burns its sequence numbers."""
+    fi = ctx.fn("aiokafka.client.AIOKafkaClient.send")
+    c = ctx.cfg(fi)
+    n = 0
+    for r in [x for x in c.nodes if x.kind == "raise" and x.ast.exc is not None]:
+        e = r.ast.exc
+        cname = unparse(e.func if isinstance(e, ast.Call) else e).split(".")[-1]
+        cis = [ci for ci in ctx.repo.classes_by_name.get(cname, []) if ci.module.name == "aiokafka.errors"]
+        if not cis:
+            continue       # re-raise of a caught error object
+        n += 1
+        retri = None
+        for k in [cis[0]] + list(ctx.repo.mro(cis[0])):
+            for st in k.node.body:
+                if isinstance(st, ast.Assign) and len(st.targets) == 1 and unparse(st.targets[0]) == "retriable" and isinstance(st.value, ast.Constant):
+                    retri = st.value.value
+                    break
+            if retri is not None:
+                break
+        ctx.ob(R, fi, r, retri is True, f"AIOKafkaClient.send() raises {cname}, which is not retriable: an accepted batch is failed (and its sequence numbers burnt) on a transient routing failure",
+               text=f"send-raises-retriable:{cname}")
+    ctx.anchor(n >= 2, f"error classes raised by AIOKafkaClient.send ({n})")
+
+
+def rule_explicit_partitions_kept(ctx, R):
+    """The public consumer methods that take `*partitions` use the caller's set as given: the parameter is re-bound only on the arm on which
+    it is EMPTY (the `no partitions named -> all assigned` default).  A computed replacement (an intersection with the assignment, say) can be
+    empty although the caller named partitions, and empty means ALL to everything downstream."""
+    n = 0
+    for m in ("getone", "getmany", "seek_to_beginning", "seek_to_end", "pause", "resume", "end_offsets", "beginning_offsets"):
+        q = f"aiokafka.consumer.consumer.AIOKafkaConsumer.{m}"
+        if q not in ctx.repo.funcs:
+            continue
+        fi = ctx.fn(q)
+        va = fi.node.args.vararg.arg if fi.node.args.vararg is not None else None
+        if va is None:
+            continue
+        n += 1
+        c = ctx.cfg(fi)
+        facts = must_facts(c)
+        bad = []
+        for d in local_defs(c, va):
+            f_ = facts[d] or ()
+            if not any(a[0] == va and a[1] == "falsy" for a in f_):
+                bad.append(d)
+        ctx.ob(R, fi, (bad[0] if bad else fi.node), not bad, f"{m}(): the caller's `{va}` is replaced by `{unparse(def_value(bad[0]))[:50] if bad else ''}` outside the `nothing named` default: "
+                                                        "when that is empty the call silently applies to ALL assigned partitions", text=f"{m}:explicit-partitions-kept")
+    ctx.anchor(n >= 4, f"consumer methods taking *partitions ({n})")
+
+
+def rule_unsubscribe_leaves(ctx, R):
+    """unsubscribe() of a group member leaves the group: maybe_leave_group() is called whenever there is a group (the subscription has
+    already been reset at that point, so nothing about it may guard the call)."""
+    fi = ctx.fn("aiokafka.consumer.consumer.AIOKafkaConsumer.unsubscribe")
+    c = ctx.cfg(fi)
+    ml = c.calls(attr="maybe_leave_group")
+    ok = len(ml) == 1
+    if ok:
+        f_ = [a for a in (must_facts(c)[ml[0]] or ())]
+        extra = [a for a in f_ if not (a[0].endswith("_group_id") or a[0].endswith("_coordinator") or a[2].endswith("_group_id") or a[2].endswith("_coordinator"))]
+        ok = not extra and c.exit not in c.reachable([c.entry], avoid={ml[0]}, exc=False) or (not extra and any(a[0].endswith("_group_id") for a in f_))
+        why = f"guarded by {extra[:2]}" if extra else "not reached on every path with a group"
+    else:
+        why = f"{len(ml)} calls"
+    ctx.ob(R, fi, fi.node, ok, f"unsubscribe(): maybe_leave_group() is {why if not ok else ''}: the member keeps heartbeating with partitions nobody consumes", text="unsubscribe-leaves-group")
+
+
+def rule_credentials_verbatim(ctx, R):
+    """The SASL user name and password reach the authenticator exactly as configured: stored from the constructor parameters unchanged and
+    passed on unchanged (a normalised password is a different password)."""
+    fi = ctx.fn("aiokafka.client.AIOKafkaClient.__init__")
+    c = ctx.cfg(fi)
+    for attr, par in (("_sasl_plain_username", "sasl_plain_username"), ("_sasl_plain_password", "sasl_plain_password")):
+        st = c.stores(attr=attr)
+        ok = len(st) == 1 and isinstance(st[0].stmt, ast.Assign) and unparse(st[0].stmt.value) == par and not local_defs(c, par)
+        ctx.ob(R, fi, (st[0] if st else fi.node), ok, f"the client stores `{unparse(st[0].stmt.value)[:40] if st and isinstance(st[0].stmt, ast.Assign) else '?'}` as {attr} "
+                                                      f"(or re-binds `{par}`), not the configured value", text=f"credentials-verbatim:{attr}")
+    n = 0
+    for q in ("aiokafka.client.AIOKafkaClient.bootstrap", "aiokafka.client.AIOKafkaClient._get_conn"):
+        f2 = ctx.fn(q)
+        for call in [x for x in ast.walk(f2.node) if isinstance(x, ast.Call) and (call_attr(x) == "create_conn" or unparse(x.func) == "create_conn")]:
+            kws = {k.arg: unparse(k.value) for k in call.keywords}
+            n += 1
+            ctx.ob(R, f2, call, kws.get("sasl_plain_username") == "self._sasl_plain_username" and kws.get("sasl_plain_password") == "self._sasl_plain_password",
+                   f"{f2.name}: create_conn is not given the stored credentials", text="credentials-passed:" + f2.name)
+    ctx.anchor(n >= 2, f"create_conn calls of the client ({n})")
+
+
+def rule_send_headers_verbatim(ctx, R):
+    """producer.send() hands the caller's headers to the batch builder as an ordered list of (key, value) pairs: the only re-binding is the
+    `headers or []` default (a dict round trip drops repeated keys)."""
+    fi = ctx.fn("aiokafka.producer.producer.AIOKafkaProducer.send")
+    c = ctx.cfg(fi)
+    bad = []
+    for d in local_defs(c, "headers"):
+        v = def_value(d)
+        ok = isinstance(v, ast.BoolOp) and isinstance(v.op, ast.Or) and len(v.values) == 2 and unparse(v.values[0]) == "headers" and isinstance(v.values[1], (ast.List, ast.Tuple)) and not v.values[1].elts
+        ok = ok or (isinstance(v, (ast.List, ast.Tuple)) and not v.elts and any(a[0] == "headers" and (a[1] == "falsy" or (a[1] == "is" and a[2] == "None")) for a in (must_facts(c)[d] or ())))
+        if not ok:
+            bad.append(d)
+    ctx.ob(R, fi, (bad[0] if bad else fi.node), not bad, f"send() rebuilds the record headers as `{unparse(def_value(bad[0]))[:50] if bad else ''}`: order and repeated keys of the caller's list are not preserved",
+           text="send-headers-verbatim")
+
+
+def rule_commit_structure_copy(ctx, R):
+    """commit_structure_validate() returns a mapping of its own: the transaction manager queues it, deletes acknowledged partitions from it and
+    re-reads it on retries -- it must not be the caller's dict."""
+    fi = ctx.fn("aiokafka.util.commit_structure_validate")
+    c = ctx.cfg(fi)
+    p0 = fi.params()[0]
+    rets = [r for r in c.nodes if r.kind == "return"]
+    ok = bool(rets)
+    for r in rets:
+        v = r.ast.value
+        fresh = False
+        if isinstance(v, ast.Name) and v.id != p0:
+            ds = local_defs(c, v.id)
+            fresh = bool(ds) and all(isinstance(def_value(d), (ast.Dict, ast.DictComp)) or (isinstance(def_value(d), ast.Call) and unparse(def_value(d).func) == "dict") for d in ds)
+        elif isinstance(v, (ast.Dict, ast.DictComp)):
+            fresh = True
+        ok = ok and fresh
+    ctx.ob(R, fi, fi.node, ok, "commit_structure_validate() can return the caller's own mapping: pending transactional offsets would alias an object the application keeps mutating "
+                               "(and the library would delete the application's entries)", text="returns-own-mapping")
+
+
+def rule_isolation_mapping(ctx, R):
+    """The configured isolation level reaches the fetcher as an exact mapping: "read_uncommitted" -> READ_UNCOMMITTED, "read_committed" ->
+    READ_COMMITTED, anything else raises.  A catch-all arm turns a mis-spelt read_committed into read_uncommitted without a word."""
+    fi = ctx.fn("aiokafka.consumer.fetcher.Fetcher.__init__")
+    c = ctx.cfg(fi)
+    facts = must_facts(c)
+    want = {"READ_UNCOMMITTED": "'read_uncommitted'", "READ_COMMITTED": "'read_committed'"}
+    st = [s for s in c.stores(attr="_isolation_level") if isinstance(s.stmt, ast.Assign)]
+    ok = len(st) == 2 and {unparse(s.stmt.value) for s in st} == set(want)
+    if ok:
+        for s in st:
+            lit = want[unparse(s.stmt.value)]
+            ok = ok and any(a[1] == "==" and {a[0], a[2]} == {"isolation_level", lit} for a in (facts[s] or ()))
+        # no normal exit without one of the two stores
+        ok = ok and c.exit not in c.reachable([c.entry], avoid=set(st), exc=False)
+    ctx.ob(R, fi, fi.node, ok, "Fetcher.__init__ does not map the isolation level by two exact string comparisons with a raising default: an unrecognised spelling silently selects a level",
+           text="isolation-mapping-exact")
+
+
+def rule_iterator_reraises(ctx, R):
+    """`async for` over the consumer surfaces what getone() raises: only RecordTooLargeError is logged and skipped, ConsumerStoppedError ends the
+    iteration -- NoOffsetForPartition / OffsetOutOfRange / authorization errors reach the application."""
+    fi = ctx.fn("aiokafka.consumer.consumer.AIOKafkaConsumer.__anext__")
+    hs = [h for h in ast.walk(fi.node) if isinstance(h, ast.ExceptHandler)]
+    bad = []
+    for h in hs:
+        types = [unparse(t).split(".")[-1] for t in (h.type.elts if isinstance(h.type, ast.Tuple) else [h.type])] if h.type is not None else ["<bare>"]
+        raises = any(isinstance(x, ast.Raise) for st in h.body for x in ast.walk(st))
+        unconditional = any(isinstance(st, ast.Raise) for st in h.body)
+        if not unconditional and not set(types) <= {"RecordTooLargeError"}:
+            bad.append((types, raises))
+    ctx.ob(R, fi, fi.node, bool(hs) and not bad, f"the consumer iterator swallows {bad[0][0] if bad else ''} (logged, retried): with auto_offset_reset='none' NoOffsetForPartition never reaches "
+                                                 "the application and the lookup is repeated for ever", text="iterator-reraises")
+
+
+def rule_timeouts_verbatim(ctx, R, cls_q):
+    """The `*_ms` settings the application passes reach the mechanism as given: such a constructor parameter is re-bound only on the arm on which
+    it is None (its documented default).  A silent clamp changes what the group coordinator / broker is told."""
+    fi = ctx.fn(f"{cls_q}.__init__")
+    c = ctx.cfg(fi)
+    facts = must_facts(c)
+    n = 0
+    for p in fi.params():
+        if not p.endswith("_ms"):
+            continue
+        n += 1
+        bad = [d for d in local_defs(c, p) if not any(a[0] == p and a[1] == "is" and a[2] == "None" for a in (facts[d] or ()))]
+        ctx.ob(R, fi, (bad[0] if bad else fi.node), not bad, f"{cls_q.split('.')[-1]}: `{p}` is replaced by `{unparse(def_value(bad[0]))[:50] if bad else ''}` although the application set it",
+               text=f"timeout-verbatim:{p}")
+    ctx.anchor(n >= 3, f"*_ms constructor parameters of {cls_q} ({n})")
+
+
+def rule_metadata_leader_verbatim(ctx, R):
+    """ClusterMetadata.update_metadata records, per partition, the leader the reply names: the unpacked `leader` field is not re-bound before it
+    is stored (a remembered old leader makes a leaderless partition look available to the partitioner and the sender)."""
+    fi = ctx.fn("aiokafka.cluster.ClusterMetadata.update_metadata")
+    c = ctx.cfg(fi)
+    stores = [d for d in local_defs(c, "leader")]
+    unpack = [d for d in stores if isinstance(getattr(d, "stmt", None), (ast.For, ast.AsyncFor)) or (isinstance(d.stmt, ast.Assign) and isinstance(d.stmt.targets[0], (ast.Tuple, ast.List)))
+              or d.kind in ("fornext", "foriter")]
+    rebinds = [d for d in stores if isinstance(d.stmt, ast.Assign) and isinstance(d.stmt.targets[0], ast.Name)]
+    ctx.anchor(bool(stores), "`leader` of the partition metadata entries in update_metadata")
+    ctx.ob(R, fi, (rebinds[0] if rebinds else fi.node), not rebinds, f"update_metadata replaces the reply's leader by `{unparse(def_value(rebinds[0]))[:50] if rebinds else ''}`: a partition "
+                                                                     "the cluster reports leaderless stays 'available'", text="leader-verbatim")
+
+
+def rule_get_conn_contains(ctx, R):
+    """AIOKafkaClient._get_conn turns every failure to obtain a connection -- including its own StaleMetadata for a node the metadata does not
+    list -- into `None` (+ metadata refresh): ready() must not raise for retriable conditions, the callers (coordinator lookup of the sender
+    and the group coordinator) call it outside any try."""
+    fi = ctx.fn("aiokafka.client.AIOKafkaClient._get_conn")
+    c = ctx.cfg(fi)
+    bad = []
+    for r in [x for x in c.nodes if x.kind == "raise" and x.ast.exc is not None]:
+        cname = unparse(r.ast.exc.func if isinstance(r.ast.exc, ast.Call) else r.ast.exc).split(".")[-1]
+        cis = [ci for ci in ctx.repo.classes_by_name.get(cname, []) if ci.module.name == "aiokafka.errors"]
+        if not cis:
+            continue
+        anc = {cis[0].name} | {k.name for k in ctx.repo.mro(cis[0])}
+        hs = [a for a, role in r.within if isinstance(a, ast.Try) and role == "body"]
+        caught = False
+        for t in hs:
+            for h in t.handlers:
+                types = [unparse(x).split(".")[-1] for x in (h.type.elts if isinstance(h.type, ast.Tuple) else [h.type])] if h.type is not None else ["BaseException"]
+                if set(types) & (anc | {"Exception", "BaseException"}):
+                    caught = True
+        if not caught:
+            bad.append((r, cname))
+    ctx.ob(R, fi, (bad[0][0] if bad else fi.node), not bad, f"_get_conn raises {bad[0][1] if bad else ''} past its own handlers: ready() raises instead of returning False, the transactional / "
+                                                          "coordination task dies on a retriable condition", text="get-conn-contains-errors")
